@@ -40,7 +40,8 @@ hashset = st.lists(st.sampled_from(HASHSETS), min_size=1, max_size=3,
 @st.composite
 def layout(draw, spec, sub_manifests=True, duplicates=True, ignores=True,
            dist=True, timestamp=True, lies=False, second_manifest=True,
-           compressed=True, hashsets=None, conflicts=True):
+           compressed=True, hashsets=None, conflicts=True,
+           sub_prob=(1, 3), second_prob=(1, 5)):
     """Returns a symbolic layout:
     {'manifests': [{'p','fmt','dir','parent','entries','mpos','mhash'}],
      'tags': [...]}   manifests[0] is the top-level one."""
@@ -63,7 +64,7 @@ def layout(draw, spec, sub_manifests=True, duplicates=True, ignores=True,
     used_names = set(vis) | {'Manifest'}
     if sub_manifests:
         for d in sorted(real_dirs):
-            if draw(st.integers(0, 2)) != 0:
+            if draw(st.integers(0, sub_prob[1] - 1)) >= sub_prob[0]:
                 continue
             fmt = draw(st.sampled_from(FMTS)) if compressed else ''
             p = d + '/Manifest' + ('.' + fmt if fmt else '')
@@ -79,7 +80,8 @@ def layout(draw, spec, sub_manifests=True, duplicates=True, ignores=True,
             tags.append('sub-manifest')
             if fmt:
                 tags.append('compressed')
-        if second_manifest and draw(st.integers(0, 4)) == 0:
+        if second_manifest and draw(
+                st.integers(0, second_prob[1] - 1)) < second_prob[0]:
             # a Manifest referenced from another one in the same directory
             i = draw(st.integers(0, len(manifests) - 1))
             d = manifests[i]['dir']
